@@ -5,11 +5,13 @@ import os
 # property -> rules deciding its structural clauses (DESIGN.md section 4)
 PROPS = {
     'C01': ['DISPATCH', 'ACDUAL'],
+    'C02': ['UNIONCONTRIB', 'PRODUCT', 'WORKLIST', 'COW'],
     'C03': ['SIZEEQ', 'WORKLIST', 'COW'],
     'C07': ['DISPATCH', 'ACDUAL'],
     'C09': ['DISPATCH', 'ACDUAL', 'MEMO', 'HASHEQ'],
+    'C10': ['UNIONCONTRIB', 'PRODUCT', 'PAIRFIELD', 'FINCHK', 'WORKLIST', 'COW'],
     'C11': ['COW'],
-    'C20': ['INIT', 'FALLOFF'],
+    'C20': ['INIT', 'FALLOFF', 'PAIRFIELD'],
 }
 
 _mods = {}
